@@ -220,4 +220,5 @@ func checkC03(r *Run) {
 // C04 - transactions are atomic and isolated.
 func checkC04(r *Run) {
 	runThemes(r, 4, themeTxnSibling, themeTxnNested, themeTxnTrunc, themeTxnFanout)
+	runPanicInsideWrites(r)
 }
